@@ -1,4 +1,5 @@
 import SaphyrModel.Parser2
+import SaphyrModel.Proofs.TokDocs
 import SaphyrModel.Api
 /-! # C15 — Documents are parsed independently (component theorems, parser level)
 
@@ -41,5 +42,45 @@ theorem document_end_clears (p : PState) (ev : Event) (sp : Span) (p' : PState)
           refine ⟨rfl, ?_, h1.symm⟩
           intro hk
           simp [clearAnchors, clearTags, hk]
+
+open TokTree in
+/-- **Documents are parsed independently (parser half).** Let `A` and `B` be lists of documents given as
+    tokens (each document: optional `---`, a node tree of block/flow collections and scalars, optional
+    `...`), `A` legal from the start of a stream and `B` legal after a document-end marker, every
+    document of `A` … closed so that `B` may follow. Then the token stream of `A` followed by `B` parses,
+    from a fresh parser, to StreamStart, the events of `A`'s documents, the events of `B`'s documents,
+    StreamEnd: the parser handles every document from a state that carries nothing of its
+    predecessors but the token position (`TokTree.doc_parses` is applied to each document in turn,
+    whatever base state the previous ones left). No indentation, flow or key state exists at this
+    level; `%TAG`/anchors are covered by `document_end_clears`. -/
+theorem documents_parse_independently (A B : List Doc) (hl : legal true (A ++ B) = true)
+    (ss se : Span) (eof : Marker) (keep : Bool) :
+    ∃ ea eb pf, steps (docsSteps (A ++ B) + 2)
+        (PState.init (⟨ss, .streamStart⟩ :: (docsToks (A ++ B) ++ [⟨se, .streamEnd⟩])) none eof keep) =
+        .ok ((.streamStart, ss) :: ((ea ++ eb) ++ [(.streamEnd, se)]), pf) ∧
+      DocsEvents A ea ∧ DocsEvents B eb ∧ pf.state = .end := by
+  obtain ⟨evs, pf, h, hev, hend⟩ := stream_docs_parse (A ++ B) hl ss se eof keep
+  -- split the events of A ++ B
+  have hsplit : ∀ (a b : List Doc) (es : List Ev), DocsEvents (a ++ b) es →
+      ∃ ea eb, es = ea ++ eb ∧ DocsEvents a ea ∧ DocsEvents b eb := by
+    intro a
+    induction a with
+    | nil => intro b es h; exact ⟨[], es, rfl, DocsEvents.nil, h⟩
+    | cons d a ih =>
+      intro b es h
+      cases h with
+      | cons s1 s2 hrest =>
+        obtain ⟨ea, eb, he, ha, hb⟩ := ih b _ hrest
+        exact ⟨d.events s1 s2 ++ ea, eb, by rw [he, List.append_assoc], DocsEvents.cons s1 s2 ha, hb⟩
+  obtain ⟨ea, eb, he, ha, hb⟩ := hsplit A B evs hev
+  exact ⟨ea, eb, pf, by rw [← he]; exact h, ha, hb, hend⟩
+
+open TokTree in
+/-- … and each of the two parts, parsed as a stream of its own, gives events of the same shape -/
+theorem documents_parse_alone (A : List Doc) (hl : legal true A = true) (ss se : Span) (eof : Marker) (keep : Bool) :
+    ∃ ea pf, steps (docsSteps A + 2)
+        (PState.init (⟨ss, .streamStart⟩ :: (docsToks A ++ [⟨se, .streamEnd⟩])) none eof keep) =
+        .ok ((.streamStart, ss) :: (ea ++ [(.streamEnd, se)]), pf) ∧ DocsEvents A ea ∧ pf.state = .end :=
+  stream_docs_parse A hl ss se eof keep
 
 end SaphyrModel.C15
